@@ -966,6 +966,24 @@ func (it *Interp) dynImplements(dyn string, iface types.Type) int {
 
 // binop evaluates a binary operation.
 func (it *Interp) binop(op token.Token, a, b AV, x *ssa.BinOp) AV {
+	// algebraic identities, so that 1*x, x*1, x+0 and 0+x name the same feature as x
+	isK := func(v AV, k int64) bool {
+		if v.Kind != KConst || v.C == nil || v.C.Kind() != constant.Int {
+			return false
+		}
+		i, exact := constant.Int64Val(v.C)
+		return exact && i == k
+	}
+	switch {
+	case op == token.MUL && isK(a, 1) && b.Kind != KConst:
+		return b
+	case op == token.MUL && isK(b, 1) && a.Kind != KConst:
+		return a
+	case op == token.ADD && isK(a, 0) && b.Kind != KConst:
+		return b
+	case (op == token.ADD || op == token.SUB) && isK(b, 0) && a.Kind != KConst:
+		return a
+	}
 	if a.Kind == KConst && b.Kind == KConst && a.C != nil && b.C != nil {
 		switch op {
 		case token.EQL, token.NEQ, token.LSS, token.LEQ, token.GTR, token.GEQ:
